@@ -4,7 +4,8 @@ from .common import tlax
 
 
 def runconf(max_ver: int, store_kind: str, placement: str, plans: List[List[str]],
-            gen: bool, shape_ids: List[int], layouts: List[str]) -> str:
+            gen: bool, shape_ids: List[int], layouts: List[str],
+            stages: List[int] = [5], fail_classes: List[str] = []) -> str:
     return "\n".join([
         "---- MODULE RunConf ----",
         "MaxVer == %d" % max_ver,
@@ -14,4 +15,6 @@ def runconf(max_ver: int, store_kind: str, placement: str, plans: List[List[str]
         "GenMode == %s" % tlax(gen),
         "ShapeIds == %s" % tlax(set(shape_ids)),
         "Layouts == %s" % tlax(layouts),
+        "StageSet == %s" % tlax(set(stages)),
+        "FailClasses == %s" % tlax(set(fail_classes)),
         "====", ""])
